@@ -30,6 +30,7 @@ fn zero_term(t: Ty) -> String {
 }
 
 fn check_system(rep: &mut Report, ctx: &mut Context, sys: &TransitionSystem, label: &str, replay: serde_json::Value, fast: &mut Proc, hard: &mut Portfolio, soft: bool) {
+    crate::panics::set_context(format!("system {label}"));
     // --- simplify_expressions
     let before = sys.clone();
     let mut after = sys.clone();
